@@ -114,7 +114,8 @@ def r09_1_2(run):
     run.floor('R09.2', '_maybe_attach call sites', len(calls), 1)
     for c in calls:
         for n in gs.nodes_containing(c):
-            gd = gs.guarded_by(n, lambda t: dotted(t) == 'wasnew')
+            flagnames = names_defined_by(su, lambda v: const(v) is True or (isinstance(v, ast.Compare) and is_none(v.comparators[0])))
+            gd = gs.guarded_by(n, lambda t: dotted(t) in flagnames)
             run.ob('R09.2', su, c, 'attachment decided only when the stream is first seen', any(lab == 'T' for _, lab in gd), slot='wasnew',
                    message='_maybe_attach reachable for streams that are not new (a second decision per stream)')
     for c in calls:
@@ -126,7 +127,7 @@ def r09_1_2(run):
             run.ob('R09.2', su, c, 'no decision for a stream the same event already closed (still listed after update)', still or alive, slot='still-listed',
                    message='_maybe_attach is called even if the update removed the stream again (first sight of an id in state CLOSED/FAILED): '
                            'the attacher is asked about a dead stream and an ATTACHSTREAM is sent for it')
-    wn = [(st, v) for st, v in writes_of(su, 'wasnew')]
+    wn = [(st, v) for fl in names_defined_by(su, lambda v: const(v) is True) for st, v in writes_of(su, fl)]
     for st, v in wn:
         if const(v) is True:
             for n in gs.nodes_containing(st):
